@@ -233,7 +233,8 @@ class MoveDataMixin:
             elif isinstance(data, torch.nn.Module):
                 converted = _module_to(data)
             else:
-                converted = data
+                # other (possibly mutable) objects, e.g. EncodingLimits: a copy does not share them with the source
+                converted = deepcopy(data) if copy else data
             return cast(T, converted)
 
         # manual recursion allows us to do the copy only once
